@@ -38,6 +38,63 @@ func ruleC04Quoted(p *Prog, r *Res) {
 		p.anchorFail("index.variableDataValue.value / index.progressVariant.variables")
 		return
 	}
+	// quoting helpers of the package: one string in, one string out, the parameter goes through QuoteMeta (since #74 the
+	// result is also rewritten byte by byte; C04-q looks at that)
+	quoteHelpers := map[*types.Func]bool{}
+	for _, g := range p.FnList {
+		if g.Short != "index" || g.Lit != nil || g.Decl == nil || g.Body() == nil || g.Decl.Recv != nil {
+			continue
+		}
+		ginfo := g.Pkg.TypesInfo
+		ft := g.Decl.Type
+		if ft.Params == nil || len(ft.Params.List) != 1 || len(ft.Params.List[0].Names) != 1 || ft.Results == nil || len(ft.Results.List) != 1 {
+			continue
+		}
+		par := ginfo.Defs[ft.Params.List[0].Names[0]]
+		if par == nil || types.TypeString(par.Type(), nil) != "string" || types.TypeString(ginfo.TypeOf(ft.Results.List[0].Type), nil) != "string" {
+			continue
+		}
+		// what is derived from the parameter: copies, conversions, elements of a range over it
+		derived := map[types.Object]bool{par: true}
+		mentions := func(n ast.Node) bool {
+			hit := false
+			ast.Inspect(n, func(x ast.Node) bool {
+				if id, ok := x.(*ast.Ident); ok && derived[ginfo.Uses[id]] {
+					hit = true
+				}
+				return !hit
+			})
+			return hit
+		}
+		for round := 0; round < 3; round++ {
+			inspectShallow(g.Body(), func(x ast.Node) bool {
+				switch st := x.(type) {
+				case *ast.AssignStmt:
+					for i, rh := range st.Rhs {
+						if i < len(st.Lhs) && mentions(rh) {
+							if o := identObj(ginfo, st.Lhs[i]); o != nil {
+								derived[o] = true
+							}
+						}
+					}
+				case *ast.RangeStmt:
+					if st.Value != nil && mentions(st.X) {
+						if o := identObj(ginfo, st.Value); o != nil {
+							derived[o] = true
+						}
+					}
+				}
+				return true
+			})
+		}
+		for _, c := range callsIn(g.Body()) {
+			if fn := p.Callee(g.Pkg, c); fn != nil && fn.Name() == "QuoteMeta" && len(c.Args) == 1 && mentions(c.Args[0]) {
+				if gobj, _ := ginfo.Defs[g.Decl.Name].(*types.Func); gobj != nil {
+					quoteHelpers[gobj.Origin()] = true
+				}
+			}
+		}
+	}
 	nSinks := 0
 	for _, f := range p.FnList {
 		if f.Short != "index" || f.Body() == nil {
@@ -46,7 +103,7 @@ func ruleC04Quoted(p *Prog, r *Res) {
 		info := f.Pkg.TypesInfo
 		isSanitiser := func(c *ast.CallExpr) bool {
 			fn := p.Callee(f.Pkg, c)
-			return fn != nil && fn.Name() == "QuoteMeta"
+			return fn != nil && (fn.Name() == "QuoteMeta" || quoteHelpers[fn.Origin()])
 		}
 		// tainted(expr) given the set of currently tainted variables
 		var taintedExpr func(e ast.Node, tv map[types.Object]bool) bool
